@@ -181,7 +181,7 @@ class World(object):
             if rel is None:
                 return None
             old = self.read_file(d, rel)
-            mt = None
+            mt = self.tick(ns_zero=True) if s.get("ns0") else None
             if s.get("same_sec"):
                 # modified again within the same second: only the sub-second part of the time-stamp changes
                 omt = self.mtime_ns(d, rel)
